@@ -190,3 +190,22 @@ def early_exits_before(fn: ast.FunctionDef, stmt: ast.stmt) -> list[ast.stmt]:
             if not inner:
                 out.append(n)
     return out
+
+
+def emptiness_test(t: ast.AST):
+    """(`source of the list expression`, empty?) when `t` is a test of a container being empty / non-empty -- `len(x) == 0`,
+    `len(x) < 1`, `not x`, `len(x) > 0`, `len(x) != 0`, `len(x) >= 1`, `x` (a plain name / attribute) -- else None."""
+    neg = False
+    while isinstance(t, ast.UnaryOp) and isinstance(t.op, ast.Not):
+        neg, t = not neg, t.operand
+    if isinstance(t, ast.Compare) and len(t.ops) == 1 and isinstance(t.left, ast.Call) and isinstance(t.left.func, ast.Name) and t.left.func.id == "len" \
+            and len(t.left.args) == 1 and isinstance(t.comparators[0], ast.Constant) and isinstance(t.comparators[0].value, int):
+        c0, op = t.comparators[0].value, type(t.ops[0])
+        if (op is ast.Gt and c0 == 0) or (op is ast.GtE and c0 == 1) or (op is ast.NotEq and c0 == 0):
+            return ast.unparse(t.left.args[0]), neg
+        if (op is ast.Eq and c0 == 0) or (op is ast.Lt and c0 == 1) or (op is ast.LtE and c0 == 0):
+            return ast.unparse(t.left.args[0]), not neg
+        return None
+    if isinstance(t, (ast.Name, ast.Attribute)):
+        return ast.unparse(t), neg
+    return None
